@@ -2,7 +2,7 @@ import GateModel.Base.Line
 import GateModel.C08.Model
 /-
 C08 driver.  Case line (see harness/c08/main.go):
-  login <proto> online=<0|1> pre=<a|d|n|f> sess=<code> msgs=<k> <input> …\t<observation>
+  login <proto> online=<0|1> pre=<a|d|n|f> sess=<code> msgs=<k> fk=<0|1> <input> …\t<observation>
   shape state-before-prelogin\t<1|0>
 The model replays the scenario and prints the transcript the fake client must have seen; the verdict is the
 executable spec evaluated on the IMPLEMENTATION's observation:
@@ -32,11 +32,15 @@ structure Sim where
   sawEOF   : Bool := false
   hung     : Bool := false
   unanswered : List Int := []     -- plugin messages the client has received and not answered
+  legacy   : Bool := false         -- pre-1.20.2 client (here: 1.19 – 1.19.2)
+  legacyDone : Bool := false       -- … that got its LoginSuccess: the proxy leaves the login phase by itself
   k        : Nat := 0
 
 def reasonClass : Reason → String
   | .badName => "badname" | .denied => "denied" | .internal => "internal" | .unable => "unable"
   | .onlineOnly => "onlineonly" | .invalidPlayerData => "mc.invalid_player_data"
+  | .keyExpired => "mc.invalid_public_key_signature" | .keyInvalid => "mc.invalid_public_key"
+  | .keyMissing => "mc.missing_public_key"
 
 def absorb (s : Sim) : Out → Sim
   | .preLoginEvent _ => { s with ev := s.ev ++ ["pre"] }
@@ -49,7 +53,8 @@ def absorb (s : Sim) : Out → Sim
   | .setCompression => { s with pending := s.pending ++ ["SetComp"] }
   | .loginEvent => { s with ev := s.ev ++ ["login"] }
   | .registered _ => { s with admitted := true }
-  | .success n o => { s with pending := s.pending ++ ["Success:" ++ (if o then "on" else "off") ++ ":" ++ toHex n ++ ":reg1"] }
+  | .success n o => { s with pending := s.pending ++ ["Success:" ++ (if o then "on" else "off") ++ ":" ++ toHex n ++
+                        (if s.legacy then ":reg_" else ":reg1")], legacyDone := s.legacy }
   | .disconnect r => { s with pending := s.pending ++ ["Disc:" ++ reasonClass r] }
   | .close => s
 
@@ -74,8 +79,10 @@ def waitRead (s : Sim) (kStop : Nat) : Sim :=
 
 def parseInput (s : Sim) (tok : String) : Option In :=
   match tok.splitOn ":" with
-  | ["L", h] => (parseHex (if h = "" then "-" else h)).map (In.login · nonce0)
-  | ["E", t, c] =>
+  | ["L", h] => (parseHex (if h = "" then "-" else h)).map (In.login · nonce0 .none)
+  | ["L", h, "x"] => (parseHex (if h = "" then "-" else h)).map (In.login · nonce0 .expired)
+  | ["L", h, "i"] => (parseHex (if h = "" then "-" else h)).map (In.login · nonce0 .invalid)
+  | "E" :: t :: c :: rest =>
     let base := s.clientTok.getD [9, 9, 9, 9]
     let tk : Option Bytes := match t with
       | "v" => some base
@@ -85,7 +92,7 @@ def parseInput (s : Sim) (tok : String) : Option In :=
       | "k" => some secret16
       | "s" => some (secret16.take 5)
       | _ => none
-    some (.encResp tk sc)
+    some (.encResp tk sc (rest == ["s"]) false)   -- the harness cannot sign: sigOk = false
   | ["P", i] => i.toInt?.map .pluginResp
   | ["U"] => some .other
   | ["A"] => some .ack
@@ -93,6 +100,7 @@ def parseInput (s : Sim) (tok : String) : Option In :=
 
 def simulate (cfg : Cfg) (env : Env) (msgs : Nat) (inputs : List String) : Option Sim :=
   inputs.foldlM (fun (s : Sim) tok => do
+    if s.legacyDone then pure s else
     let i ← parseInput s tok
     let s := { s with tr := s.tr ++ [">" ++ toString s.k], k := s.k + 1 }
     let r := step cfg env s.st i
@@ -105,15 +113,18 @@ def simulate (cfg : Cfg) (env : Env) (msgs : Nat) (inputs : List String) : Optio
           let s := { s with unanswered := s.unanswered.filter (· != id) }
           pure (if s.unanswered.isEmpty then waitRead s 0 else s)
         else pure s
-      | _ => pure s) {}
+      | _ => pure s) { legacy := cfg.keyEra }
 
 def showL (xs : List String) : String := if xs.isEmpty then "-" else ",".intercalate xs
 
 def finish (s : Sim) : String :=
   if s.hung then "hang" else
   let tr := if s.sawEOF then s.tr else s.tr ++ s.pending.map ("<" ++ ·)
-  let ev := if s.admitted then s.ev ++ ["disc:ok"] else s.ev
-  " ".intercalate tr ++ " end=" ++ (if s.st.phase == .closed then "closed" else "open") ++
+  -- pre-1.20.2: after LoginSuccess the proxy enters play (PostLogin event), finds no server and disconnects
+  let tr := if s.legacyDone then s.tr else tr
+  let ev := if s.legacyDone then s.ev ++ ["post"] else s.ev
+  let ev := if s.admitted then ev ++ ["disc:ok"] else ev
+  " ".intercalate tr ++ " end=" ++ (if s.st.phase == .closed || s.legacyDone then "closed" else "open") ++
     " ev=" ++ showL ev ++ " join=" ++ showL s.joins
 
 /-! ### spec on the implementation's observation -/
@@ -125,14 +136,16 @@ def fieldOf (obs name : String) : String :=
 
 def svcName (n : Bytes) : Bool := n.take 3 == [115, 118, 99]
 
-def mkCfg (online : Bool) (pre : String) (msgs : Nat) : Cfg :=
+def mkCfg (online : Bool) (pre : String) (msgs : Nat) (keyEra forceKey : Bool) : Cfg :=
   { onlineMode := online
+    keyEra := keyEra
+    forceKeyAuth := forceKey
     preLogin := fun n => if svcName n then .forceOffline else
       match pre with | "pre=d" => .denied | "pre=n" => .forceOnline | "pre=f" => .forceOffline | _ => .allowed
     preMsgs := fun _ => msgs }
 
 def nameOf (tok : String) : Bytes :=
-  let h := (tok.drop 2).toString
+  let h := ((tok.splitOn ":").getD 1 "")
   (parseHex (if h = "" then "-" else h)).getD []
 
 def verdict (cfg : Cfg) (sessCode : String) (inputs : List String) (impl : String) : String :=
@@ -178,26 +191,31 @@ def verdict (cfg : Cfg) (sessCode : String) (inputs : List String) (impl : Strin
   if admitted && (match admName with | some n => needsAuth cfg n | none => firstNeeds) then
     match before with
     | [(i0, l), (i1, e)] =>
-      let name := (l.drop 2).toString
-      let okShape := l.startsWith "L:" && e == "E:v:k" && validName (nameOf l) && needsAuth cfg (nameOf l)
+      let name := toHex (nameOf l)
+      -- keyless connection (the harness cannot produce a valid key): the token field must carry exactly the issued
+      -- token — in the plain or (1.19 – 1.19.2) the salted form
+      let okShape := l.startsWith "L:" && (!cfg.keyEra || (l.splitOn ":").length == 2) && (e == "E:v:k" || e == "E:v:k:s") &&
+        validName (nameOf l) && needsAuth cfg (nameOf l) && keyReject cfg .none == none
       let encReqBetween := posOf (">" ++ toString i0) < encReqPos && encReqPos < posOf (">" ++ toString i1)
       let joinOk := joins == name ++ ":1" && sessCode == "j"
-      let succOk := succ == ["<Success:on:" ++ name ++ ":reg1"]
+      let succOk := succ == ["<Success:on:" ++ name ++ ":reg1"] || succ == ["<Success:on:" ++ name ++ ":reg_"]
       if okShape && encReqBetween && joinOk && succOk then "ok" else "viol:admitted-without-auth"
     | _ => "viol:admitted-without-auth"
   else if admitted then
     -- offline admission: exactly one login start, and it carries the admitted name
     match before, admName with
-    | [(_, l)], some n => if l.startsWith "L:" && nameOf l == n then "ok" else "viol:admitted-without-auth"
+    | [(_, l)], some n =>
+      if l.startsWith "L:" && nameOf l == n && keyReject cfg (if (l.splitOn ":").length == 2 then .none else .invalid) == none
+      then "ok" else "viol:admitted-without-auth"
     | _, _ => "viol:admitted-without-auth"
   else "ok"
 
 def step' (c : Case) : String × String :=
   match c.op, c.args with
   | "shape", _ => ("1", if c.impl == "1" then "ok" else "viol:state-assignment-after-prelogin")
-  | "login", _proto :: on :: pre :: sess :: msgs :: inputs =>
+  | "login", pv :: on :: pre :: sess :: msgs :: fk :: inputs =>
     let k := ((msgs.drop 5).toString.toNat?).getD 0
-    let cfg := mkCfg (on == "online=1") pre k
+    let cfg := mkCfg (on == "online=1") pre k (pv == "759" || pv == "760") (fk == "fk=1")
     let code := (sess.drop 5).toString
     -- the account the client joined the session server with: its first login name (code j) / another name (code o)
     let first : Bytes := match inputs.find? (·.startsWith "L:") with
